@@ -23,9 +23,15 @@ def dec(x):
         if "__shared__" in x:
             # the caller keeps one dict object and edits it in place between calls; a fresh
             # process (the oracle worker) naturally starts with a new one
+            val = dec(x["value"])
+            if isinstance(val, list):
+                l = SHARED.setdefault(x["__shared__"] + "#list", [])
+                del l[:]
+                l.extend(val)
+                return l
             d = SHARED.setdefault(x["__shared__"], {})
             d.clear()
-            d.update(dec(x["value"]))
+            d.update(val)
             return d
         if "__set__" in x:
             return set(dec(v) for v in x["__set__"])
